@@ -74,6 +74,7 @@ type Interp struct {
 	assumeKills int
 	boot     bool
 	ds       *domState
+	recheck  bool
 	noSummaries bool
 	errT     types.Type
 	numErrT  types.Type
@@ -126,6 +127,10 @@ type Explorer struct {
 	initG      *globalsInit
 	traceEvery int64
 	domForks   atomic.Int64
+	domDecided atomic.Int64
+	domRechecked atomic.Int64
+	recheckEvery int64
+	pathSeq    atomic.Int64
 	seed       int64
 }
 
@@ -133,7 +138,7 @@ func NewExplorer(prog *ssa.Program, entry *ssa.Function, harness string, params 
 	ex := &Explorer{prog: prog, harness: harness, entry: entry, params: params, workers: workers, solverK: envOr("VERIF_SOLVER", "z3-new"),
 		budget: 3_000_000, Ends: map[string]int64{}, Cuts: map[string]int64{}, Reach: map[string]int64{},
 		Asserts: map[string]*assertStat{}, Cands: map[string][]*Candidate{}, Nondet: map[string]int64{},
-		Cov: map[*ssa.BasicBlock]struct{}{}, EngineErrs: map[string]int64{}, traceEvery: 1}
+		Cov: map[*ssa.BasicBlock]struct{}{}, EngineErrs: map[string]int64{}, traceEvery: 1, recheckEvery: 8}
 	ex.cond = sync.NewCond(&ex.mu)
 	return ex
 }
@@ -226,6 +231,9 @@ func (ex *Explorer) runPath(s *Solver, it workItem) {
 		names: map[string]int{}, globals: map[*ssa.Global]*value{}, copied: map[interface{}]interface{}{},
 		budget: ex.budget, reach: map[string]int{}, cov: map[*ssa.BasicBlock]struct{}{}, params: ex.params,
 		asserts: map[string]*assertStat{}, harness: ex.harness, ds: newDomState()}
+	if ex.recheckEvery > 0 && ex.pathSeq.Add(1)%ex.recheckEvery == 0 {
+		in.recheck = true
+	}
 	s.BeginPath()
 	end := in.execute(ex.entry)
 	s.EndPath()
@@ -420,7 +428,7 @@ func (in *Interp) branch(c *Term) bool {
 		return d
 	}
 	v := in.model.Eval(c) == 1
-	if dv.single && dv.free && domainMode != "check" {
+	if dv.single && dv.free && domainMode != "check" && !in.recheck {
 		// both sides possible and the variable is unconstrained otherwise: patch the model
 		m := make(map[string]uint64, len(in.model.vals))
 		for k, x := range in.model.vals {
@@ -682,7 +690,14 @@ func (in *Interp) concreteString(v value, m *Model) string {
 
 func (in *Interp) candidate(id, msg, site string, m *Model) {
 	vec := in.vectorUnder(m)
-	tags := append([]string{}, in.tags...)
+	var tags []string
+	seenTag := map[string]bool{}
+	for _, t := range in.tags {
+		if !seenTag[t] {
+			seenTag[t] = true
+			tags = append(tags, t)
+		}
+	}
 	sort.Strings(tags)
 	c := &Candidate{Harness: in.harness, Assertion: id, Site: site, Tags: tags, Vals: vec, Text: describeInputs(in.inputs, vec), Msg: msg}
 	in.newCands = append(in.newCands, c)
